@@ -32,7 +32,7 @@ IsRound == l <= Len(Log) /\ Ev.e = "Round"
 
 MkCfg(c) == [maxNames |-> c.maxNames, maxMatch |-> c.maxMatch, maxReplies |-> c.maxReplies,
              maxCompleted |-> c.maxCompleted, maxPerUser |-> c.maxPerUser, busUid |-> c.busUid,
-             policy |-> c.policy, epoch |-> 2, maxMsgFds |-> c.maxMsgFds]
+             policy |-> c.policy, epoch |-> 2, maxMsgFds |-> c.maxMsgFds, maxMsgSize |-> c.maxMsgSize]
 
 ZeroPos == [s \in Slot |-> 0]
 \* the known-defect deviation PolicyPruning is a property of the whole run of one daemon: chosen at Reset
@@ -47,6 +47,7 @@ TInit ==
   /\ pos = ZeroPos /\ cnt = ZeroPos /\ sdone = {} /\ gone = {} /\ kicked = {} /\ skipd = {} /\ carry = NoCarry
   /\ TLCSet(1, 0)
 
+W == INSTANCE Wire
 \* ---- comparing an observed message with an expected one
 ArgsEq(oa, ea) == /\ Len(oa) = Len(ea)
                   /\ \A i \in 1..Len(ea) : oa[i].t = ea[i].t /\ oa[i].v = ea[i].v
@@ -62,6 +63,10 @@ MsgMatch(o, e) ==
                             /\ Len(o.args[1].v) = Len(e.args[1].v) /\ SetOf(o.args[1].v) = SetOf(e.args[1].v)
        [] e.cmp = "errtext" -> TRUE
        [] e.cmp = "local" -> TRUE
+       \* a message that was written as raw bytes: the body the recipient read decodes (Wire.tla) to the same value
+       \* tree as the body that was written, flags byte untouched
+       [] e.cmp = "rawbody" -> /\ o.sig = e.sig /\ o.fl = e.fl
+                               /\ LET bd == W!BodyDec(o.braw, o.sig, o.le) IN bd.ok /\ bd.v = e.tree
 
 IsReply(m) == m.ty \in {2, 3} /\ m.org = 0
 \* one action's messages for one client: any order, except that the reply to the client's own request
@@ -157,13 +162,41 @@ FdPool(s, op) == IF fdx.cap[s] THEN fdx.held[s] \o op.att ELSE <<>>
 FdBad(s, op) == \/ op.nfd > Len(FdPool(s, op)) \/ op.nfd > cfg.maxMsgFds \/ Len(FdPool(s, op)) > cfg.maxMsgFds
 OpMsgFds(s, op) == [OpMsg(op) EXCEPT !.nfd = op.nfd, !.fds = SubSeq(FdPool(s, op), 1, op.nfd)]
 
+\* ---- raw bytes written by a (hostile) client: Wire.tla decides what they are.  The driver writes one candidate
+\* message per op (it cuts at the length the first 16 bytes announce), so the bytes are: not yet a whole message
+\* ("incomplete": the loader waits, nothing happens), something that can never become a valid message ("corrupt":
+\* the sender is disconnected, nothing else happens), or exactly one valid message ("msg": routed like any other).
+RawClass(s, b) ==
+  IF Len(b) < 16 THEN "incomplete"
+  ELSE LET fx == W!Fixed(b) IN
+       IF ~fx.ok \/ fx.total > cfg.maxMsgSize THEN "corrupt"
+       ELSE IF Len(b) < fx.total THEN "incomplete"
+       ELSE IF Len(b) > fx.total THEN "badcut"
+       ELSE IF W!MessageDecX(b, Len(fdx.held[s]), TRUE).ok THEN "msg" ELSE "corrupt"
+U32T(t) == t[1] + 256 * t[2] + 65536 * t[3] + 16777216 * t[4]
+TopArgs(tree) == [i \in 1..Len(tree) |-> [t |-> tree[i].t, v |-> IF tree[i].t \in {cS, cO, cG} THEN tree[i].v ELSE <<>>]]
+RawM(s, b) ==
+  LET d == W!MessageDecX(b, Len(fdx.held[s]), TRUE)
+      m == d.m IN
+  [ty |-> m.ty, snd |-> <<>>, dst |-> m.dst, ser |-> U32T(m.ser), rs |-> U32T(m.rs), path |-> m.path, ifc |-> m.ifc,
+   mem |-> m.mem, err |-> m.err, sig |-> m.sig, args |-> TopArgs(m.body), fl |-> b[3], org |-> 0, cmp |-> "rawbody",
+   nfd |-> d.nfd, fds |-> SubSeq(fdx.held[s], 1, d.nfd), unk |-> <<>>, ci |-> FALSE, tree |-> m.body, fsnd |-> m.snd]
+RawRepresentable(b) == LET m == W!MessageDecX(b, 16, TRUE).m IN m.ser[4] < 128 /\ m.rs[4] < 128
+Nop == out' = <<>> /\ UNCHANGED <<cfg, cst, dying, uid, uname, everNames, queue, rules, pend, mon, fdx>>
+
 \* a client the daemon closed may never see the reply to its Hello although the Hello was processed: the name it
 \* got is then one of those announced to the others in this round
 AllObs == UNION {{Ev.obs[r][i] : i \in 1..Len(Ev.obs[r])} : r \in Slot}
-AnnouncedUniques == {m.args[1].v : m \in {x \in AllObs : /\ x.mem = S_NameOwnerChanged /\ x.snd = BUS /\ Len(x.args) = 3
-                                                          /\ x.args[2].v = <<>> /\ x.args[1].v # <<>>
-                                                          /\ x.args[1].v[1] = cColon}}
-HelloNames(op) == IF op.got # <<>> THEN {op.got} ELSE AnnouncedUniques \cup {<<>>}
+ObsOf(ln) == UNION {{ln.obs[r][i] : i \in 1..Len(ln.obs[r])} : r \in Slot}
+UniquesIn(ms) == {m.args[1].v : m \in {x \in ms : /\ x.mem = S_NameOwnerChanged /\ x.snd = BUS /\ Len(x.args) = 3
+                                                   /\ (x.args[2].v = <<>> \/ x.args[3].v = <<>>) /\ x.args[1].v # <<>>
+                                                   /\ x.args[1].v[1] = cColon}}
+\* (its arrival or, if nobody was listening yet, its departure in this round or the next; if nobody ever hears of
+\* it, a name no real bus hands out stands for it)
+RECURSIVE Digits(_)
+Digits(n) == IF n < 10 THEN <<48 + n>> ELSE Append(Digits(n \div 10), 48 + (n % 10))
+AnnouncedUniques == UniquesIn(AllObs) \cup (IF NextIsRound THEN UniquesIn(ObsOf(Log[l + 1])) ELSE {})
+HelloNames(s, op) == IF op.got # <<>> THEN {op.got} ELSE AnnouncedUniques \cup {<<cColon, 48, 46>> \o Digits(l * 10 + s)}
 
 \* internal state reported by the in-process harness (registry queues, primary's allow_replacement, rule counts)
 DumpOK(op) ==
@@ -179,7 +212,7 @@ Apply0(s, op) ==
   CASE op.k = "connect" -> Plain(Connect(s, op.uid, op.fdcap))
     [] op.k = "monitor" -> \E order \in [1..Cardinality(NamesOf(queue, s)) -> NamesOf(queue, s)] :
                               Plain(BecomeMonitor(s, op.ser, op.fl, op.rules, op.flags, order))
-    [] op.k = "hello" -> \E nw \in HelloNames(op) : Plain(Hello(s, op.ser, op.fl, nw))
+    [] op.k = "hello" -> \E nw \in HelloNames(s, op) : Plain(Hello(s, op.ser, op.fl, nw))
     [] op.k = "req" -> Plain(RequestName(s, op.ser, op.fl, op.n, op.f))
     [] op.k = "rel" -> Plain(ReleaseName(s, op.ser, op.fl, op.n))
     [] op.k = "query" -> Plain(Query(s, op.ser, op.fl, op.q, op.n))
@@ -193,6 +226,18 @@ Apply0(s, op) ==
                         \/ Dev("LocalReplyUnstamped", Dev_LocalReplyUnstamped(s, OpMsg(op), op.fsnd))
     [] op.k = "close" -> Plain(PingAndClose(s, op.ser))
     [] op.k = "big" -> Plain(Corrupt(s))
+    [] op.k = "raw" ->
+         LET c == RawClass(s, op.b) IN
+         CASE c = "msg" -> /\ RawRepresentable(op.b)
+                           /\ LET m == RawM(s, op.b) IN
+                              \/ Plain(IF m.dst = BUS THEN DriverOther(s, m)
+                                       ELSE Send(s, m, SubSeq(fdx.held[s], m.nfd + 1, Len(fdx.held[s]))))
+                              \/ Dev("LocalReplyUnstamped", Dev_LocalReplyUnstamped(s, m, m.fsnd))
+           [] c = "corrupt" -> Plain(Corrupt(s))
+           [] c = "incomplete" -> Plain(Nop) /\ op.mute
+           [] OTHER -> FALSE
+    \* abrupt close: no farewell; the line must not have been dead already (the driver looks before closing)
+    [] op.k = "aclose" -> Plain(ClientClose(s)) /\ ~op.waseof
     [] op.k = "dump" -> Plain(Dump(op))
 
 \* with fault injection a request either runs normally or is aborted as a whole
@@ -221,9 +266,11 @@ TStep(s) ==
   /\ LET op == Ev.ops[s][pos[s] + 1] IN
      /\ Apply(s, op)
      /\ pos' = [pos EXCEPT ![s] = @ + 1]
-     /\ gone' = IF op.k = "close" THEN gone \cup {s} ELSE IF op.k = "connect" THEN gone \ {s} ELSE gone
+     \* (a client that left a message unfinished is not read any more either)
+     /\ gone' = IF op.k \in {"close", "aclose"} \/ (op.k = "raw" /\ op.mute) THEN gone \cup {s}
+                ELSE IF op.k = "connect" THEN gone \ {s} ELSE gone
      /\ kicked' = (IF op.k = "connect" THEN kicked \ {s} ELSE kicked)
-                  \cup {x \in Slot : dying'[x] /\ ~dying[x] /\ ~(x = s /\ op.k = "close")}
+                  \cup {x \in Slot : dying'[x] /\ ~dying[x] /\ ~(x = s /\ op.k \in {"close", "aclose"})}
      /\ Explain(gone' \cup kicked')
      /\ skipd' = IF op.k = "connect" THEN skipd \ {s} ELSE skipd
   /\ UNCHANGED <<l, sdone>>
